@@ -48,6 +48,29 @@ def check_program(node, rec=None):
             observe.check_keys(env.nodes[path], m, sub['op'], sibling_keys=siblings)
         except Violation as v:
             raise Violation(v.sig, f'program: {progs.show(sub)}\n{v.detail}')
+    # history dependence: the stages above were observed (keys(), items(), lookups) - anything derived from them NOW
+    # must still be right (stale lazily-filled key caches, shared index arrays, ...)
+    for path, sub in sorted(progcheck.subnodes(node), key=lambda t: -len(t[0])):
+        m = ev(sub)
+        if not (m.indexable and m.sized) or m.has_raise or m.iter_taint or m.int_taint:
+            continue
+        base = env.nodes[path]
+        lates = [({'op': 'slice', 'form': {'k': 'slice', 'a': 1, 'b': None, 'c': None}, 'in': sub}, lambda d: d[1:]),
+                 ({'op': 'slice', 'form': {'k': 'slice', 'a': None, 'b': None, 'c': 2}, 'in': sub}, lambda d: d[::2]),
+                 ({'op': 'copy', 'freeze': False, 'in': sub}, lambda d: d.copy())]
+        for late_node, derive in lates:
+            try:
+                late = derive(base)
+            except Exception as e:
+                raise Violation(f'late-derivation-raised|{sub["op"]}', f'program: {progs.show(late_node)} (derived '
+                                                                       f'after the stage was used): {e!r}')
+            try:
+                observe.check_keys(late, ev(late_node), 'late-' + sub['op'], sibling_keys=siblings)
+                observe.check_iter(late, ev(late_node), 'late-' + sub['op'], passes=1, cycle=False)
+            except Violation as v:
+                raise Violation(v.sig, f'program: {progs.show(late_node)}, derived AFTER keys()/items()/lookups '
+                                       f'were used on its input\n{v.detail}')
+        break  # the outermost eligible stage is enough per program
     if rec is not None:
         m = ev(node)
         cls = progcheck.classes_of(node, m)
